@@ -537,7 +537,7 @@ func runC15(c *core.Ctx) {
 		want       time.Time
 	}
 	var forms []form
-	for digits := 0; digits <= 9; digits++ {
+	for _, digits := range []int{0, 1, 2, 3, 4, 5, 6, 7, 8, 9, 10, 12, 19, 40} { // (RFC 3339 and xsd:dateTime put no upper bound on the fraction)
 		frac, ns := "", 0
 		if digits > 0 {
 			frac = "." + strings.Repeat("1", digits)
@@ -604,6 +604,32 @@ func runC15(c *core.Ctx) {
 	c15Shapes(c)
 	c.Group("metadata-endpoint-location-forms")
 	c15LocationForms(c)
+	// entity IDs up to the longest the specification allows (1024 characters) survive a generation like any other
+	c.Group("metadata-entity-id-lengths")
+	for _, n := range []int{1, 2, 255, 256, 1000, 1022, 1023, 1024} {
+		for _, kind := range []string{"url", "urn", "non-ascii"} {
+			n, kind := n, kind
+			c.Case(fmt.Sprintf("entity-id-length/%s/%d", kind, n), func(t *core.T) {
+				t.NonTrivial()
+				id := "https://e.example/"
+				switch kind {
+				case "urn":
+					id = "urn:x:"
+				case "non-ascii":
+					id = "https://é.example/"
+				}
+				if len(id) > n {
+					id = id[:n]
+				}
+				id += strings.Repeat("a", n-len(id))
+				role := saml.RoleDescriptor{ProtocolSupportEnumeration: "urn:oasis:names:tc:SAML:2.0:protocol"}
+				ed := &saml.EntityDescriptor{EntityID: id, SPSSODescriptors: []saml.SPSSODescriptor{{SSODescriptor: saml.SSODescriptor{RoleDescriptor: role},
+					AssertionConsumerServices: []saml.IndexedEndpoint{{Binding: saml.HTTPPostBinding, Location: "https://ok.example.com/acs", Index: 1}}}}}
+				checkED(t, ed, false)
+			})
+		}
+	}
+
 	c.Group("metadata-validity-instants")
 	c15ValidityInstants(c)
 }
